@@ -53,6 +53,14 @@ def Scale(scale_factor, n_dims=None):
         else:
             return NonUniformScale(scale_factor)
     else:
+        if np.ndim(scale_factor) > 0 and not np.allclose(scale_factor, scale_factor[0]):
+            # differing per-axis factors can not make a UniformScale
+            if scale_factor.shape != (n_dims,):
+                raise ValueError(
+                    "{} scale factors were given for {} "
+                    "dimensions".format(scale_factor.shape[0], n_dims)
+                )
+            return NonUniformScale(scale_factor)
         # interpret as a scalar then
         return UniformScale(scale_factor, n_dims)
 
